@@ -93,6 +93,12 @@ def run(chk):
                     cs = cs0 + site_cs
                     if v == normal.NONE:
                         continue
+                    # an Option has two variants: a branch for "neither" cannot be taken
+                    if any(isinstance(t, tuple) and t[:1] == ("discr",) and (len(t) < 3 or t[2] == "Option") and not flow.lab_holds(l, "0") and not flow.lab_holds(l, "1") for t, l in cs):
+                        continue
+                    if is_list(v) and any(flow.asserts_ok(t, l, is_list) for t, l in cs):
+                        # the list itself, on a branch where it is present: Some(its content)
+                        v = normal.some(("payload", v))
                     if not (isinstance(v, tuple) and v[:3] == ("agg", "core::option::Option", "Some") and flow.is_payload_of(dict(v[3])["0"], is_list)):
                         ok_ids = False
                         continue
